@@ -234,7 +234,7 @@ def replay_gap(ctx, case):
         ctx.disagreement(case, f"'hlt; cli' stands at {planted[:8]}: address-only {str(ra[1:2])[:120]}, full text starts {str(rt[1:2])[:120]}, first {rf[1:2]}")
 
 
-BOUNDS = [8192, 4096, 1024, 16384, 10000, 2048, 1000, 512, 5000, 32768, 8191, 4095, 20000, 12288, 24576]
+BOUNDS = [8192, 4096, 1024, 16384, 10000, 2048, 1000, 512, 5000, 32768, 8191, 4095, 20000, 12288, 24576, 50000, 65536, 100000, 25000, 40000, 30000]
 
 
 def long_variable_stratum(ctx, ws, n):
